@@ -21,6 +21,10 @@ func tagWorkload(c *fw.Ctx, n int, emit emitFn) {
 		tags := []string{}
 		for t := 0; t < ntags; t++ {
 			name := fmt.Sprintf("@g%d", t)
+			if r.Intn(2) == 0 {
+				// a declared tag with the name that a path gives to its own tag (first segment): one catalog entry serves both
+				name = []string{"@a", "@b", "@v1", "@c__d", "@e-f"}[(t+i)%5]
+			}
 			tags = append(tags, name)
 			sb.WriteString("TAG " + name)
 			if r.Intn(2) == 0 {
